@@ -400,3 +400,109 @@ def polylines(maxv, grid=GRID3):
     for n in range(1, maxv + 1):
         out.extend(list(p) for p in itertools.product(grid, repeat=n))
     return out
+
+
+# --------------------------------------------------------------------------
+# the `inds` argument in every form a caller may give it (used by C02 and by C01)
+# --------------------------------------------------------------------------
+INDS_DTYPES = ['int8', 'uint8', 'int16', 'uint16', 'int32', 'uint32', 'int64']
+# positions on both sides of half the range / the range of the 8- and 16-bit types:
+# 2 * position wraps in int8 from 64, in uint8 from 128, in int16 from 16384, in uint16 from 32768
+EDGE_POS = [0, 1, 63, 64, 65, 127, 128, 129, 255, 256, 257, 299, 16383, 16384, 16385, 32767, 32768, 32769]
+
+
+def inds_forms(rng, n, tuples, must=()):
+    """[(name, positions object, normalised positions)] for an array of n >= 300 elements:
+
+      * an integer array of each width and signedness, holding positions BEYOND HALF the type's
+        range whenever the array is long enough (int8 / uint8: n >= 300; int16 / uint16:
+        n >= 33000), the type's largest usable position, and positions around 64 / 128 / 256 /
+        16384 / 32768; `must` positions (where the answers are known to be interesting) included
+      * a Python list, a list of numpy integers, a tuple (only when `tuples`)
+      * negative positions (int64 array, int8 array down to -128, int16 array, list)
+      * empty list / tuple / arrays
+      * a read-only array, a strided view, a 0-based range turned into a list
+    """
+    assert n >= 300
+
+    def norm(p):
+        return p + n if p < 0 else p
+    forms = []
+    for dt in INDS_DTYPES:
+        info = np.iinfo(dt)
+        hi = min(n - 1, int(info.max))
+        half = (int(info.max) + 1) // 2
+        pos = [p for p in EDGE_POS if p <= hi] + [hi, hi - 1] + [p for p in must if p <= hi]
+        if hi >= half:
+            pos += [rng.randint(half, hi) for _ in range(10)]
+        pos += [rng.randint(0, hi) for _ in range(4)]
+        rng.shuffle(pos)
+        forms.append((dt, np.array(pos, dtype=dt), pos))
+    some = [p for p in EDGE_POS if p < n] + [n - 1] + [p for p in must if p < n] + \
+        [rng.randrange(n) for _ in range(6)]
+    rng.shuffle(some)
+    forms.append(('list', list(some), some))
+    forms.append(('list-of-numpy-ints', [np.int16(p) if p < 32768 else np.int64(p) for p in some[:9]],
+                  some[:9]))
+    if tuples:
+        forms.append(('tuple', tuple(some), some))
+    neg = [-1, -2, -n, -(n - 1), -64, -65, -128, -129, -256, 3, -1] + [p - n for p in must if p < n]
+    forms.append(('negative:int64', np.array(neg, dtype='int64'), [norm(p) for p in neg]))
+    forms.append(('negative:list', list(neg), [norm(p) for p in neg]))
+    neg8 = [-1, -128, -127, -64, -65, -100, 5, 127]
+    forms.append(('negative:int8', np.array(neg8, dtype='int8'), [norm(p) for p in neg8]))
+    neg16 = [-1, -300, -257, -129, 7] + ([-16384, -16385, -32768, -20000] if n >= 32768 else [])
+    forms.append(('negative:int16', np.array(neg16, dtype='int16'), [norm(p) for p in neg16]))
+    forms.append(('empty:list', [], []))
+    forms.append(('empty:int64', np.array([], dtype='int64'), []))
+    forms.append(('empty:uint8', np.array([], dtype='uint8'), []))
+    if tuples:
+        forms.append(('empty:tuple', (), []))
+    ro = np.array(some, dtype='int64')
+    ro.setflags(write=False)
+    forms.append(('readonly:int64', ro, some))
+    small = [p for p in some if p <= 255] + [200, 255, 130]
+    ro8 = np.array(small, dtype='uint8')
+    ro8.setflags(write=False)
+    forms.append(('readonly:uint8', ro8, small))
+    forms.append(('strided:int32', np.array(some + some[::-1], dtype='int32')[::2], (some + some[::-1])[::2]))
+    forms.append(('strided:int8', np.array([100, 0, 127, 1, 64, 2, 90, 3], dtype='int8')[::2], [100, 127, 64, 90]))
+    return forms
+
+
+def check_inds_forms(forms, call, full, scalar_at):
+    """call(positions object) -> the at-positions form; full = the whole-array form (bool array);
+    scalar_at(p) = the scalar form of element p (False for a missing element).
+    -> [(form name, problem, detail)] with problem in
+       raises:<Exception> | not-boolean | length | differs-from-array-form | differs-from-scalar-form |
+       positions-modified"""
+    out = []
+    for name, inds, pos in forms:
+        before = inds.copy() if isinstance(inds, np.ndarray) else list(inds)
+        try:
+            r = np.asarray(call(inds))
+        except Exception as e:  # noqa: BLE001
+            out.append((name, 'raises:' + type(e).__name__, {'error': str(e)[:200]}))
+            continue
+        after = inds.copy() if isinstance(inds, np.ndarray) else list(inds)
+        if (isinstance(inds, np.ndarray) and not (before.dtype == after.dtype and np.array_equal(before, after))) \
+                or (not isinstance(inds, np.ndarray) and before != after):
+            out.append((name, 'positions-modified', {}))
+        if r.dtype != np.bool_:
+            out.append((name, 'not-boolean', {'dtype': str(r.dtype)}))
+            continue
+        if r.shape != (len(pos),):
+            out.append((name, 'length', {'shape': list(r.shape), 'expected': len(pos)}))
+            continue
+        got = [bool(x) for x in r.tolist()]
+        exp_a = [bool(full[p]) for p in pos]
+        exp_s = [bool(scalar_at(p)) for p in pos]
+        for what, exp in (('differs-from-array-form', exp_a), ('differs-from-scalar-form', exp_s)):
+            bad = [i for i, (g, e) in enumerate(zip(got, exp)) if g != e]
+            if bad:
+                i = bad[0]
+                out.append((name, what, {'k': i, 'position_given': int(np.asarray(inds).tolist()[i]),
+                                         'position': pos[i], 'got': got[i], 'expected': exp[i],
+                                         'n_differ': len(bad), 'n': len(pos)}))
+                break
+    return out
